@@ -89,10 +89,10 @@ inductive NodeTaskOK (P : Program) (d : DagRef) (s : St) (n : Node) : Task → P
       s.proc n = true → s.res n = none →
       NodeTaskOK P d s n { frames := [.node d n false (.sleep k kw inv)], st := .runnable .go, name := .node n }
   | doneOk :
-      (s.res n).isSome = true →
+      s.proc n = true → (s.res n).isSome = true →
       NodeTaskOK P d s n { frames := [], st := .done .ok, name := .node n }
   | doneExc (e : Exc) :
-      s.res n = none →
+      s.proc n = true → s.res n = none →
       NodeTaskOK P d s n { frames := [], st := .done (.exc e), name := .node n }
 
 /-- the main `_run_dag` task (task 1); `launched` are the nodes it has created tasks for, in order -/
@@ -237,8 +237,8 @@ theorem launched_no_result_contra {P : Program} {d : DagRef} {s : St} {n : Node}
   | bodyDone k kw inv => simp [isRunnable] at h1
   | sleeping k kw inv dl => exact h2.2 _ _ _ _ rfl
   | slept k kw inv => simp [isRunnable] at h1
-  | doneOk h => simp [hres] at h
-  | doneExc e _ => exact herr i _ e hi rfl
+  | doneOk _ h => simp [hres] at h
+  | doneExc e _ _ => exact herr i _ e hi rfl
 
 /-- **C02 (plain), no stuck state**: in every state satisfying the invariant in which the run is still pending,
 some task can run or something external (a node body, a timer) is outstanding -/
@@ -446,8 +446,8 @@ theorem NodeTaskOK.frame {P : Program} {d : DagRef} {s s' : St} {n : Node} {tk :
   | bodyDone k kw inv h1 h2 => exact .bodyDone k kw inv (by rw [hp, h1]) (by rw [hr, h2])
   | sleeping k kw inv dl h1 h2 => exact .sleeping k kw inv dl (by rw [hp, h1]) (by rw [hr, h2])
   | slept k kw inv h1 h2 => exact .slept k kw inv (by rw [hp, h1]) (by rw [hr, h2])
-  | doneOk h1 => exact .doneOk (by rw [hr, h1])
-  | doneExc e h1 => exact .doneExc e (by rw [hr, h1])
+  | doneOk h0 h1 => exact .doneOk (by rw [hp, h0]) (by rw [hr, h1])
+  | doneExc e h0 h1 => exact .doneExc e (by rw [hp, h0]) (by rw [hr, h1])
 
 /-- waking the main task keeps its predicate (a blocked launcher becomes a running one) -/
 theorem MainOK.wake {P : Program} {d : DagRef} {s : St} {L : List Node} {tk : Task}
@@ -825,10 +825,10 @@ theorem node_step_finish {P : Program} {d : DagRef} (hp : PlainP P d) {s s1 : St
   · have hrn : s'.res L[i] = s2.res L[i] := by rw [hres']
     rcases hs2 with ⟨h, e, he⟩ | ⟨v0, h, _, he⟩
     · subst he
-      refine .doneExc e ?_
+      refine .doneExc e (by rw [hproc', hproc2]; exact x.procN) ?_
       rw [hrn, h, x.res1]; exact x.resN
     · subst he
-      refine .doneOk ?_
+      refine .doneOk (by rw [hproc', hproc2]; exact x.procN) ?_
       rw [hrn, h]; simp [St.setRes]
   · intro m hm _; exact succ_mem_finallyKeys hp _ m hm
   · intro ho _; rw [ho]; exact out_mem_finallyKeys hp
@@ -1065,8 +1065,8 @@ theorem pinv_step_gate {P : Program} {d : DagRef} {s : St} (h : PInv P d s) (n i
       | bodyDone k kw inv' h1 h2 => exact .bodyDone k kw inv' h1 h2
       | sleeping k kw inv' dl h1 h2 => exact .sleeping k kw inv' dl h1 h2
       | slept k kw inv' h1 h2 => exact .slept k kw inv' h1 h2
-      | doneOk h1 => exact .doneOk h1
-      | doneExc e h1 => exact .doneExc e h1
+      | doneOk h0 h1 => exact .doneOk h0 h1
+      | doneExc e h0 h1 => exact .doneExc e h0 h1
     · intro tk e he
       obtain ⟨fr, st, mc, nm⟩ := tk
       cases st with
